@@ -1,6 +1,7 @@
 (* Single entry point of the judges: a command (list of numbers) to the canonical encoding of the
    model's output.  Used by the kernel judge (cases_*.v, vm_compute) and by the extracted driver. *)
 From Spl Require Export Judge.Dump.
+From Spl Require Model.Lifecycle.
 
 Fixpoint take_bytes (n : N) (s : text) (fuel : nat) : option text :=
   if n =? 0 then Some [] else
@@ -42,9 +43,39 @@ Definition run_update (args : list N) : list N :=
   | _ => [4]
   end.
 
-Definition run (cmd : list N) : list N :=
+(* ---- C18: [clean; (isreq, method)*]; request ids are the 1-based message positions ---- *)
+Module LC.
+Import Spl.Model.Lifecycle.
+Definition meth_of (k : N) : meth :=
+  match k with
+  | 0 => MInitialize | 1 => MShutdown | 2 => MSupported 0 | 3 => MInitialized
+  | 4 => MExit | 5 => MDoc 0 | _ => MOther 0
+  end.
+Fixpoint msgs_of (pos : Z) (l : list N) : list msg :=
+  match l with
+  | isreq :: k :: r =>
+      (if isreq =? 1 then Req pos (meth_of k) else Notif (meth_of k)) :: msgs_of (pos + 1)%Z r
+  | _ => []
+  end.
+Definition enc_answer (a : answer) : N :=
+  match a with
+  | Result => 0 | Error ServerNotInitialized => 1 | Error InvalidRequest => 2 | Error MethodNotFound => 3
+  end.
+Definition run_lifecycle (args : list N) : list N :=
+  match args with
+  | clean :: l =>
+      match Lifecycle.run (msgs_of 1%Z l) (clean =? 1) with
+      | (PExited st, rs) => st :: nlen rs :: flat_map (fun r => [Z.to_N (rid r); enc_answer (rans r)]) rs
+      | _ => [99]
+      end
+  | [] => [4]
+  end.
+End LC.
+
+Definition judge_run (cmd : list N) : list N :=
   match cmd with
   | 1 :: args => run_lex args
   | 2 :: args => run_update args
+  | 3 :: args => LC.run_lifecycle args
   | _ => [4]
   end.
